@@ -106,6 +106,7 @@ struct Thread {
   int (*pred)(void*) = nullptr;
   void* pred_arg = nullptr;
 
+  int alloc_window = 0;  // allocation-failure faults may hit this thread's operator new
   int np = 0;     // no-preempt depth (harness bookkeeping)
   int in_rt = 0;  // inside runtime: hooks pass through
 
